@@ -5,20 +5,32 @@
    Amounts in units of 10^15 mo (1 LEMO = 1000), gas price 1 unit: the balances are those of the real setup
    for seed 1; the abstract gas values are the real intrinsic costs (data bytes rounded). *)
 EXTENDS Ledger
-McAcc == {"a1", "a2", "a3", "a4", "I", "P", "Z", "KS", "KR", "KX", "KD", "KO"}
+McAcc == {"a1", "a2", "a3", "a4", "I", "M1", "M2", "F", "R", "P", "Z", "KS", "KR", "KX", "KD", "KO"}
+\* M1 / M2: the miner accounts of the two genesis deputies (registered by the genesis block without a deposit, income
+\* address I); F: founder = reward manager; R: the reward precompile.
 McCtx == [V |-> 200000, D |-> 100000, mindep |-> 300000, income |-> "I", pool |-> "P", zero |-> "Z", issuer |-> "a4",
-          rev |-> {"KR", "KX"}, sink |-> {"KS"}, burn |-> {"KD"}, back |-> {"KO"}]
+          rev |-> {"KR", "KX"}, sink |-> {"KS"}, burn |-> {"KD"}, back |-> {"KO"},
+          deps |-> <<{"M1", "M2"}>>, payees |-> << <<[a |-> "I", v |-> 0], [a |-> "I", v |-> 0]>> >>,
+          prec |-> 1000, rm |-> "F", rc |-> "R", rpool |-> 600000000]
 McInit == [bal   |-> [a \in McAcc |-> CASE a = "a1" -> 409000 [] a = "a2" -> 186000 [] a = "a3" -> 256728
-                                        [] a = "a4" -> 991480 [] a = "I" -> 219544 [] a = "P" -> 300000 [] OTHER -> 0],
+                                        [] a = "a4" -> 991480 [] a = "I" -> 219544 [] a = "P" -> 300000
+                                        [] a = "M1" -> 1209828 [] a = "M2" -> 764184 [] a = "F" -> 995655848 [] OTHER -> 0],
            votes |-> [a \in McAcc |-> IF a = "a3" THEN 5 ELSE 0],
            vf    |-> [a \in McAcc |-> IF a = "a1" THEN "a3" ELSE NONE],
-           reg   |-> [a \in McAcc |-> IF a = "a3" THEN "yes" ELSE "no"],
+           reg   |-> [a \in McAcc |-> IF a \in {"a3", "M1", "M2"} THEN "yes" ELSE "no"],
            dep   |-> [a \in McAcc |-> IF a = "a3" THEN 300000 ELSE 0],
            eq    |-> [a \in McAcc |-> IF a \in {"a1", "a2"} THEN 100 ELSE 0],
            code  |-> [a \in McAcc |-> a \in {"KS", "KR", "KX", "KD", "KO"}],
-           sup   |-> 200, frz |-> FALSE]
+           sup   |-> 200, frz |-> FALSE,
+           h |-> 3, T |-> 1000000, I |-> 1000, rwd |-> <<0, 0>>, rwt |-> <<0, 0>>]
+\* The term-boundary worlds: the setup chain continues with empty stable blocks up to the snapshot block (height T),
+\* which elects a3 (5 votes) and one genesis deputy for term 1; the scenario blocks are the interim blocks T+1 .. T+I,
+\* the reward block T+I+1 and the blocks after it.  Every scenario block is stabilised when it is committed.
+McCtxTerm  == [McCtx EXCEPT !.deps = <<{"M1", "M2"}, {"a3", "M2"}>>]
+McInitTerm == [McInit EXCEPT !.h = 4, !.T = 4, !.I = 1]
+McInitTerm2 == [McInit EXCEPT !.h = 6, !.T = 6, !.I = 2]
 McGas == [xfer |-> 21000, vote |-> 35000, reg |-> 112000, topup |-> 112000, unreg |-> 112000, issue |-> 63000,
-          repl |-> 70000, axfer |-> 39000, freeze |-> 43000, unfreeze |-> 43000, box |-> 40000]
+          repl |-> 70000, axfer |-> 39000, freeze |-> 43000, unfreeze |-> 43000, box |-> 40000, setrew |-> 24000]
 \* amount classes of the asset transactions (cfg files cannot hold negative numbers): negative, zero, one, all of
 \* the holder's equity, one more than it owns, 2^256 (the adapter writes 2000000000 as 2^256)
 McAAmtQ == {-60, 0, 1, 100, 101, 2000000000}
